@@ -136,7 +136,7 @@ func (r *replayer) consume(chunks []int, restarts []int) error {
 		r.n.View.SetWatermark(wm)
 		tick()
 		for _, rs := range restarts {
-			if rs == ci {
+			if rs == ci || rs < 0 {
 				view := r.n.View
 				kp := r.n.KeyPair
 				r.n.Close()
@@ -155,6 +155,21 @@ func (r *replayer) consume(chunks []int, restarts []int) error {
 	if dead, pv, _ := r.n.PollDead(); dead {
 		return fmt.Errorf("poller died while replaying: %v", pv)
 	}
+	return nil
+}
+
+func (r *replayer) restart() error {
+	view, kp := r.n.View, r.n.KeyPair
+	r.n.Close()
+	world.Drain()
+	nd, err := world.OpenNode(r.name, r.dir, kp, view, false)
+	if err != nil {
+		return err
+	}
+	r.n = nd
+	nd.Start()
+	time.Sleep(world.PollPeriod + time.Millisecond)
+	synctest.Wait()
 	return nil
 }
 
@@ -231,7 +246,7 @@ func c08Run(t *testing.T, st *vstat.Stats, p c08Plan) (v *viol) {
 				}
 			}
 			if faults > 0 && w.Board.Len() > 0 {
-				acts = append(acts, act{"fault", c % 4, 0})
+				acts = append(acts, act{"fault", c % 5, 0})
 			}
 			if len(acts) == 0 {
 				break
@@ -255,6 +270,10 @@ func c08Run(t *testing.T, st *vstat.Stats, p c08Plan) (v *viol) {
 					w.Board.Inject(storage.Message{DkgRoundID: src.DkgRoundID, Event: src.Event, Data: src.Data, Signature: []byte("not a signature"), SenderAddr: src.SenderAddr, RecipientAddr: src.RecipientAddr})
 				case 2: // junk event
 					w.PostSigned(c%p.N, rounds[c%len(rounds)], "event_unknown_to_everyone", []byte(`{"junk":true}`), "")
+				case 4: // a signing proposal whose baked range lies outside the list: passes the FSM's validation, refused afterwards
+					data, _ := json.Marshal(map[string]any{"BatchID": fmt.Sprintf("bogus-%d", c), "ParticipantId": c % p.N, "CreatedAt": time.Now(),
+						"SigningTasks": []map[string]any{{"MessageID": "r", "RangeStart": 20000, "RangeEnd": 20002}}})
+					w.PostSigned(c%p.N, roundA, "event_signing_start", data, "")
 				case 3: // a message of a round nobody knows
 					w.PostSigned(c%p.N, fmt.Sprintf("%064x", c), "event_dkg_commit_confirm_received", []byte(`{"ParticipantId":0,"Commit":"AAAA","CreatedAt":"2000-01-01T00:00:00Z"}`), "")
 				}
@@ -290,6 +309,14 @@ func c08Run(t *testing.T, st *vstat.Stats, p c08Plan) (v *viol) {
 			}
 		}
 		if p.Batch && w.StateOf(0, roundA) == "stage_signing_idle" {
+			if p.Faults%2 == 1 {
+				// a refused proposal (range outside the baked list) right before the honest one
+				data, _ := json.Marshal(map[string]any{"BatchID": "bogus-before-batch", "ParticipantId": 0, "CreatedAt": time.Now(),
+					"SigningTasks": []map[string]any{{"MessageID": "r", "RangeStart": 20000, "RangeEnd": 20002}}})
+				w.PostSigned(0, roundA, "event_signing_start", data, "")
+				rejected++
+				w.PollAll()
+			}
 			if err := w.ProposeBatch(0, roundA, map[string][]byte{"doc": []byte("payload for determinism")}); err == nil {
 				for r := 0; r < 40; r++ {
 					progress := w.PollAll()
@@ -309,6 +336,13 @@ func c08Run(t *testing.T, st *vstat.Stats, p c08Plan) (v *viol) {
 			}
 		}
 		w.PollAll()
+		if all := w.Board.All(); len(all) > 0 && p.Faults%3 != 0 {
+			// the log ends with a refused message (a duplicate of an earlier one)
+			src := all[len(p.Tape)%len(all)]
+			w.Board.Inject(storage.Message{DkgRoundID: src.DkgRoundID, Event: src.Event, Data: src.Data, Signature: src.Signature, SenderAddr: src.SenderAddr, RecipientAddr: src.RecipientAddr})
+			rejected++
+			w.PollAll()
+		}
 		log := w.Board.All()
 		if len(log) == 0 {
 			return
@@ -376,7 +410,15 @@ func c08Run(t *testing.T, st *vstat.Stats, p c08Plan) (v *viol) {
 			return
 		}
 		defer rr.close()
-		if err := rr.consume(p.Chunks, p.Restarts); err != nil {
+		restarts := p.Restarts
+		if p.Prefix%2 == 0 {
+			restarts = []int{-1} // restart after every chunk
+		}
+		if err := rr.consume(p.Chunks, restarts); err != nil {
+			v = violf("replay-failed", "%v", err)
+			return
+		}
+		if err := rr.restart(); err != nil { // what is compared is what the rebuilt node has on disk
 			v = violf("replay-failed", "%v", err)
 			return
 		}
